@@ -30,6 +30,17 @@ const ASSUME_COMMON: &[&str] = &[
 
 pub fn props() -> Vec<Prop> {
     vec![Prop {
+        id: "C01",
+        scenarios: &[("c01", 1)],
+        quick_runs: 30_000,
+        thorough_runs: 600_000,
+        quick_cap_s: 60.0,
+        thorough_cap_s: 900.0,
+        probes: &[],
+        real: &["may scheduler, work-stealing queues, global queues, coroutine pool, join, park, sleep/timer thread, cancel, epoll+eventfd wake-up, generator context switch"],
+        stub: STUB_COMMON,
+        assumptions: ASSUME_COMMON,
+    }, Prop {
         id: "C03",
         scenarios: &[("c03", 1)],
         quick_runs: 40_000,
